@@ -305,7 +305,17 @@ impl Gen {
                     for h in hs.iter().skip(start).take(n) {
                         if with_text {
                             if let Some((_, pb, pe)) = m.parent_range(*h) {
-                                subs.push(SelReq::Ann(self.r_ann(rng, m, *h), Some(Off { begin: Cur::B(0), end: if rng.chance(1, 2) { Cur::E(0) } else { Cur::B(pe - pb) } })));
+                                // whole-text offsets are what range compression looks for; almost-whole neighbours must not be merged
+                                let len = pe - pb;
+                                let begin = if len >= 2 && rng.chance(1, 6) { Cur::B(1) } else { Cur::B(0) };
+                                let end = match rng.below(6) {
+                                    0 | 1 => Cur::E(0),
+                                    2 | 3 => Cur::B(len),
+                                    4 if len >= 2 => Cur::E(-1),
+                                    _ if len >= 2 => Cur::B(len - 1),
+                                    _ => Cur::E(0),
+                                };
+                                subs.push(SelReq::Ann(self.r_ann(rng, m, *h), Some(Off { begin, end })));
                                 continue;
                             }
                         }
